@@ -40,7 +40,7 @@ RULE = ('random FeatureLists / BioBaskets of 0-8 elements drawn from small pools
         'non-trivial = distinct case whose result is neither empty nor the unchanged input')
 TRUSTED = ['CPython sorted() is a stable sort (modelled by the proven-stable insertion sort of lib/C16_StableSort.v and compared on '
            'tie-heavy inputs), dict insertion order, list.__contains__, str.lower/str.split/str.rsplit, operator module',
-           'modelled: cane._keyfuncs/_groupby/_sorted/_filter (cane.py:13-105); FeatureList.get/select/todict/groupby/sort/filter and '
+           'modelled: cane._keyfuncs/_groupby/_sorted/_filter (cane.py:13-105), BioMatchList.groupby / d and the attribute lookup of BioMatch (instance, then wrapped re.Match; cane.py:133-134,148-164); FeatureList.get/select/todict/groupby/sort/filter and '
            'the 12 set-operator methods (fts.py:466-505,632-699,778-830); the BioBasket counterparts, fts setter, add_fts '
            '(seq.py:661-770,1006-1116); Feature.__eq__/__lt__/__len__, LocationTuple.range/__lt__, BioSeq.__eq__/__lt__',
            'the operator table of the model is regenerated on every run by probing cane._filter with every documented operator name '
